@@ -28,6 +28,8 @@ LLVM_MC = shutil.which("llvm-mc") or shutil.which("llvm-mc-14")
 
 
 def have_tools():
+    if os.environ.get("C07_NO_REFS"):          # for exercising the vendored-table-only path
+        return {"objdump": False, "llvm-mc": False}
     return {"objdump": bool(OBJDUMP), "llvm-mc": bool(LLVM_MC)}
 
 
